@@ -3,7 +3,7 @@
 definitions) of the witness programs under corpus/C01pipe, as written by `gv c01` into
 .cache/run/C01/c01.cases.tsv, into Lean terms (lean/GomlVerif/Lemmas/PipeExamples.lean).  The Gensym start is
 the one `gomlmodel c01pipe` recovers (given on the command line: name=N).
-Usage: tools/c01pipe_examples.py closure-generic-match=3 closure-ref-loop-panic=4 generic-struct-closure-tuple=6"""
+Usage: tools/c01pipe_examples.py closure-generic-match=3 closure-ref-loop-panic=4 generic-struct-closure-tuple=6 e2e-closure-generic-struct-panic=2"""
 import os, sys
 sys.path.insert(0, os.path.dirname(os.path.abspath(__file__)))
 from c08_examples import parse, a, lstr, ty, params, expr as expr08, exprs
@@ -25,7 +25,7 @@ def fn(f):
 
 def main():
     want = [w.split("=") for w in sys.argv[1:]]
-    rows = [l.rstrip("\n").split("\t") for l in open(os.path.join(VERIF, ".cache/run/C01/c01.cases.tsv"), encoding="utf-8")]
+    rows = [l.rstrip("\n").split("\t") for l in open(os.path.join(VERIF, ".cache/run/C01/c01.cases.tsv"), encoding="utf-8", errors="replace")]
     out = ["import GomlVerif.Model.Pipeline",
            "/-! REAL Core dumps (input of `mono::mono`) and `genv` type definitions of the witness programs under",
            "    corpus/C01pipe, converted by tools/c01pipe_examples.py -/",
@@ -44,6 +44,21 @@ def main():
         out.append(f"/-- corpus/C01pipe/{w}.gom: Core after match compilation -/")
         out.append(f"def core{k + 1} : Prog := {{ impls := {im}, fns := [\n  " + ",\n  ".join(fn(f) for f in file[1:]) + "] }")
         out.append(f"def ex{k + 1} : PipeIn :=\n  {{ gensym := {g}, enums := {ed}, structs := {sd}, prog := core{k + 1} }}")
+        # what go/compile.rs reads of GlobalGoEnv (for the end-to-end examples)
+        ge = next((r[2] for r in rows if r[0] == pid and r[1] == "GOENV"), None)
+        if ge is not None:
+            ex = parse(ge)
+            sdef = lambda s_: f"{{ name := {lstr(a(s_[1]))}, generics := {strs(s_[2])}, fields := {params(s_[3])} }}"
+            edef = lambda e_: (f"{{ name := {lstr(a(e_[1]))}, generics := {strs(e_[2])}, variants := [" +
+                               ", ".join(f"({lstr(a(v[0]))}, [" + ", ".join(ty(t) for t in v[1]) + "])" for v in e_[3]) + "] }")
+            trait = lambda t_: f"({lstr(a(t_[0]))}, [" + ", ".join(f"({lstr(a(m[0]))}, {ty(m[1])})" for m in t_[1:]) + "])"
+            xfn = lambda x: "(" + ", ".join(lstr(a(y)) for y in x) + ")"
+            xty = lambda x: f"({lstr(a(x[0]))}, {lstr(a(x[1]))}, " + ("none" if x[2] == "none" else f"some {lstr(a(x[2][0]))}") + ")"
+            ap = lambda x: f"({lstr(a(x[0]))}, " + ("none" if x[1] == "none" else f"some {ty(x[1][0])}") + ")"
+            lst = lambda f, xs: "[" + ", ".join(f(x) for x in xs) + "]"
+            out.append(f"def goenv{k + 1} : GoCompile.Env :=\n  {{ structs := {lst(sdef, ex[1][1:])}, structsLookup := {lst(sdef, ex[2][1:])}, enums := {lst(edef, ex[3][1:])}, "
+                       f"traits := {lst(trait, ex[4][1:])}, externFns := {lst(xfn, ex[5][1:])}, externTys := {lst(xty, ex[6][1:])}, applyTys := {lst(ap, ex[7][1:])} }}")
+            out.append(f"def e2e{k + 1} : E2EIn := {{ pipe := ex{k + 1}, goenv := goenv{k + 1} }}")
         out.append("")
     out.append("end Goml.Pipeline.Examples")
     open(os.path.join(VERIF, "lean/GomlVerif/Lemmas/PipeExamples.lean"), "w").write("\n".join(out) + "\n")
